@@ -160,7 +160,7 @@ PROPS = {
     },
     "C20": {
         "module": "GtfsVerif.Props.C20",
-        "trusted_base": JOURNAL_TB + ["modelled, differentially validated byte for byte: text/template rendering of trips.csv.tmpl and stop_times.csv.tmpl as Gtfs.Journal.tripsCsv / stopTimesCsv",
+        "trusted_base": JOURNAL_TB + ["modelled, differentially validated byte for byte: text/template rendering of trips.csv.tmpl and stop_times.csv.tmpl as Gtfs.Journal.tripsCsv / stopTimesCsv", "regenerated: the decomposition of both template files and the FuncMap (Gen.ExportTemplate); the extractor's tokeniser is trusted to trim as text/template does",
                                       "read-back in the theorems is splitting at LF then at commas; that this coincides with encoding/csv on quote-free, CR-free text is checked by the oracle, which reads every export back with encoding/csv"],
         "partial": ["a stop-time row whose seven cells were all empty cannot occur (last_observed is a decimal number, never empty; the trip's UID may be empty in a journal that was not built by BuildJournal, and such journals are generated)"],
         "assumptions": [],
@@ -260,9 +260,9 @@ MANIFEST_TEXT = {
         "technique": "Lean 4 proof over a model of the source loop + fault-directory correspondence",
     },
     "C20": {
-        "text": "Theorems for all journals free of CSV metacharacters: both tables split back (LF, then commas) into exactly the header and one row per trip / stop time in journal order with exactly the entry's cells (decimal round trip proved, direction 0/1/blank), each stop-time row keyed by its trip's UID. The rendering model is compared byte for byte with ExportToCsv and every export is read back with encoding/csv by the oracle.",
-        "note": "Trusted: Lean kernel, harness, text/template (modelled by a hand-written renderer validated byte for byte), encoding/csv in the oracle.",
-        "technique": "Lean 4 proof (join/split inverse, decimal round trip) + byte-level correspondence with ExportToCsv",
+        "text": "Theorems for all journals free of CSV metacharacters: both tables split back (LF, then commas) into exactly the header and one row per trip / stop time in journal order with exactly the entry's cells (decimal round trip proved, direction 0/1/blank), each stop-time row keyed by its trip's UID; the two template files and the FuncMap are read on every run, and the model's rows are proved to be the rendering of today's row actions, separators and terminator (header = model's header, as many names as cells, which field under which name). The rendering model is compared byte for byte with ExportToCsv and every export is read back with encoding/csv by the oracle.",
+        "note": "Trusted: Lean kernel, harness, the template tokeniser of the extractor, text/template's evaluation of field actions (modelled by tripField / stField and a hand-written renderer, validated byte for byte), encoding/csv in the oracle.",
+        "technique": "Lean 4 proof (join/split inverse, decimal round trip, rendering of the regenerated template rows) + byte-level correspondence with ExportToCsv",
     },
     "C13": {
         "text": "The encoder model is regenerated from hash.go on every run; Lean proves, for all pairs of trips (vehicles), that the hash input streams are equal iff all data fields are equal: prefix-injectivity of the generated combinator expression by instance resolution, and injectivity of the generated field tuple (every data field is written). The generated encoder is compared byte for byte with the real Hash output, and pair oracles (one-field differences, nil vs zero, string boundary shift, update count, presentation-only differences) run on the implementation.",
